@@ -498,7 +498,7 @@ pub fn gen_v1_mutant(t: &mut Tape) -> (Vec<u8>, &'static str) {
     let mut p = gen_valid_parts(t, false);
     let tcp = p.proto != b"UNKNOWN";
     let v6 = p.proto == b"TCP6";
-    let kind = t.below(28);
+    let kind = t.below(30);
     let label: &'static str;
     match kind {
         0 => {
@@ -729,6 +729,17 @@ pub fn gen_v1_mutant(t: &mut Tape) -> (Vec<u8>, &'static str) {
                 if t.chance(1, 3) {
                     line.extend_from_slice("tail \u{e9}\r\n".as_bytes());
                 }
+            }
+            return (line, label);
+        }
+        28 | 29 => {
+            // one separating space becomes CR / LF / TAB / FF (the tokenizer splits on SP and CR alike)
+            label = "separator-replaced";
+            let mut line = p.render();
+            let spaces: Vec<usize> = line.iter().enumerate().filter(|(_, &b)| b == b' ').map(|(i, _)| i).collect();
+            if !spaces.is_empty() {
+                let at = spaces[t.below(spaces.len() as u32) as usize];
+                line[at] = *t.pick(&[b'\r', b'\r', b'\n', b'\t', 0x0c]);
             }
             return (line, label);
         }
